@@ -134,3 +134,13 @@ impl<T: FromObs> FromObs for Vec<T> {
         }
     }
 }
+impl<T: ToObs> ToObs for Box<T> {
+    fn to_obs(&self) -> Obs {
+        (**self).to_obs()
+    }
+}
+impl<T: FromObs> FromObs for Box<T> {
+    fn from_obs(o: &Obs) -> Self {
+        Box::new(T::from_obs(o))
+    }
+}
